@@ -72,15 +72,20 @@ func scaleSchema(m int) *model.Schema {
 	t := model.T
 	s := &model.Schema{Query: "Q"}
 	nodeFields := func() []*model.FieldDef {
-		return []*model.FieldDef{{Name: "next", Type: t("Node")}, {Name: "v", Type: t("Int")}, {Name: "w", Type: t("Int")}, {Name: "s", Type: t("String")}}
+		return []*model.FieldDef{{Name: "next", Type: t("Node")}, {Name: "any", Type: t("Any")}, {Name: "v", Type: t("Int")}, {Name: "w", Type: t("Int")}, {Name: "s", Type: t("String")}}
 	}
 	s.Types = append(s.Types, &model.TypeDef{Kind: model.KIface, Name: "Node", HasResolveType: true, Fields: nodeFields()})
 	for i := 0; i < m; i++ {
 		s.Types = append(s.Types, &model.TypeDef{Kind: model.KObject, Name: fmt.Sprintf("T%d", i), Interfaces: []string{"Node"}, Fields: nodeFields()})
 	}
+	any := &model.TypeDef{Kind: model.KUnion, Name: "Any", HasResolveType: true}
+	for i := 0; i < m; i++ {
+		any.Members = append(any.Members, fmt.Sprintf("T%d", i))
+	}
+	s.Types = append(s.Types, any)
 	s.Types = append(s.Types, &model.TypeDef{Kind: model.KInput, Name: "In", InputFields: []*model.ArgDef{{Name: "a", Type: t("Int")}, {Name: "n", Type: t("In")}, {Name: "l", Type: t("[In]")}}})
 	s.Types = append(s.Types, &model.TypeDef{Kind: model.KObject, Name: "Q", Fields: []*model.FieldDef{
-		{Name: "node", Type: t("Node")}, {Name: "q", Type: t("Q")}, {Name: "a", Type: t("Int")}, {Name: "b", Type: t("Int")},
+		{Name: "node", Type: t("Node")}, {Name: "any", Type: t("Any")}, {Name: "q", Type: t("Q")}, {Name: "a", Type: t("Int")}, {Name: "b", Type: t("Int")},
 		{Name: "f", Type: t("String"), Args: []*model.ArgDef{{Name: "x", Type: t("In")}, {Name: "y", Type: t("[Int]")}}}}})
 	return s
 }
@@ -155,6 +160,14 @@ func scaleDoc(family string, n, m int) string {
 			fmt.Fprintf(&sb, "... on T%d { x: v next { x: w } } ", i%m)
 		}
 		sb.WriteString("} }")
+	case "uniondepth": // nesting through a union-typed field whose selection applies to every member
+		sb.WriteString("{ any ")
+		for i := 0; i < n; i++ {
+			sb.WriteString("{ ... on Node { v any ")
+		}
+		sb.WriteString("{ ... on Node { v } }")
+		sb.WriteString(strings.Repeat(" } }", n))
+		sb.WriteString(" }")
 	case "sparse": // nesting through an abstract field; only one implementer selects anything at the innermost level
 		sb.WriteString("{ node ")
 		for i := 0; i < n; i++ {
@@ -173,7 +186,7 @@ func scaleDoc(family string, n, m int) string {
 	return sb.String()
 }
 
-var scaleFamilies = []string{"sparse", "depth", "chain", "fan", "dag", "nestdag", "repeat", "litdeep", "litwide", "exclusive", "wide"}
+var scaleFamilies = []string{"uniondepth", "sparse", "depth", "chain", "fan", "dag", "nestdag", "repeat", "litdeep", "litwide", "exclusive", "wide"}
 
 type scaleMeasure struct {
 	validate, plan, exec uint64
@@ -361,7 +374,7 @@ func TestC19_Ladder(t *testing.T) {
 	}
 	for _, fam := range scaleFamilies {
 		ms := []int{4}
-		if fam == "depth" || fam == "exclusive" {
+		if fam == "depth" || fam == "exclusive" || fam == "uniondepth" {
 			ms = []int{2, 8, 32, 128}
 		}
 		for _, m := range ms {
@@ -391,34 +404,39 @@ func TestC19_Implementers(t *testing.T) {
 	if replayFile() != "" {
 		t.Skip()
 	}
-	for _, n := range []int{4, 16, 48} {
-		var first uint64
-		for i, m := range []int{2, 8, 32, 128} {
-			s := scaleSchema(m)
-			w := &ref.World{S: s, Salt: 5}
-			b, err := build.New(s, w, build.Options{})
-			if err != nil {
-				t.Fatalf("HARNESS: %v", err)
+	for _, fam := range []string{"depth", "uniondepth"} {
+		for _, n := range []int{4, 16, 48} {
+			if fam == "uniondepth" && n > 16 {
+				continue // m^n if unions were planned per member: 16 levels show it
 			}
-			sm, err := measure(b, w, scaleDoc("depth", n, m))
-			c := &ScaleCase{Family: "depth", N: n, M: m}
-			if capped, ok := err.(errStepCap); ok {
-				fatalViolation("C19", "implementers", c, "a depth-%d query with %d implementers %s", n, m, capped.Error())
-			}
-			if err != nil {
-				t.Fatalf("HARNESS: %v", err)
-			}
-			stats.R.Case(fmt.Sprintf("impl/%d/%d", n, m), true, func() interface{} {
-				return map[string]interface{}{"depth": n, "implementers": m, "plan_steps": sm.plan, "validate_steps": sm.validate, "exec_steps": sm.exec, "abstract_types_planned_at_execution": sm.abstractPlanned}
-			})
-			if i == 0 {
-				first = sm.plan
-			} else if sm.plan != first {
-				violation(t, "C19", "implementers", c, "planning a depth-%d query costs %d steps with %d implementers but %d steps with 2: planning work depends on the number of possible types", n, sm.plan, m, first)
-			}
-			// one value per abstract position: at most one runtime type planned per position
-			if sm.abstractPlanned > uint64(n+1) {
-				violation(t, "C19", "implementers", c, "executing a depth-%d query planned %d (field, runtime type) alternatives, but only %d abstract values were encountered", n, sm.abstractPlanned, n+1)
+			var first uint64
+			for i, m := range []int{2, 8, 32, 128} {
+				s := scaleSchema(m)
+				w := &ref.World{S: s, Salt: 5}
+				b, err := build.New(s, w, build.Options{})
+				if err != nil {
+					t.Fatalf("HARNESS: %v", err)
+				}
+				sm, err := measure(b, w, scaleDoc(fam, n, m))
+				c := &ScaleCase{Family: fam, N: n, M: m}
+				if capped, ok := err.(errStepCap); ok {
+					fatalViolation("C19", "implementers", c, "a depth-%d query with %d implementers %s", n, m, capped.Error())
+				}
+				if err != nil {
+					t.Fatalf("HARNESS: %v", err)
+				}
+				stats.R.Case(fmt.Sprintf("impl/%s/%d/%d", fam, n, m), true, func() interface{} {
+					return map[string]interface{}{"depth": n, "implementers": m, "plan_steps": sm.plan, "validate_steps": sm.validate, "exec_steps": sm.exec, "abstract_types_planned_at_execution": sm.abstractPlanned}
+				})
+				if i == 0 {
+					first = sm.plan
+				} else if sm.plan != first {
+					violation(t, "C19", "implementers", c, "planning a depth-%d query costs %d steps with %d implementers but %d steps with 2: planning work depends on the number of possible types", n, sm.plan, m, first)
+				}
+				// one value per abstract position: at most one runtime type planned per position
+				if sm.abstractPlanned > uint64(n+1) {
+					violation(t, "C19", "implementers", c, "executing a depth-%d query planned %d (field, runtime type) alternatives, but only %d abstract values were encountered", n, sm.abstractPlanned, n+1)
+				}
 			}
 		}
 	}
